@@ -542,7 +542,7 @@ pub fn run(ctx: &Ctx, replay: Option<&J>) -> i32 {
     // {', ", a, blank} (the emitted source has to spell a string that holds both quote kinds as a
     // concatenation; every pattern of quote runs occurs)
     {
-        let qwords: Vec<String> = crate::alpha::words(&['\'', '"', 'a', ' '], if thorough { 5 } else { 4 }).into_iter().filter(|w| !w.is_empty()).map(|w| w.into_iter().collect()).collect();
+        let qwords: Vec<String> = crate::alpha::words(&['\'', '"', 'a', ' ', '\u{e9}', '\u{65e5}'], if thorough { 5 } else { 4 }).into_iter().filter(|w| !w.is_empty()).map(|w| w.into_iter().collect()).collect();
         let qbodies = ["[c, x]", "d", "[d, y, c]", "{[c]: x}", "(() => [c, d])()"];
         let qcases: Vec<Case> = qbodies.iter().map(|b| Case { body: b.to_string(), class: "quote-strings".into(), root_pipe: false }).collect();
         par_for_ctx(ctx, qwords.len(), |i| {
